@@ -19,6 +19,7 @@ from ..astutil import (
     call_recv,
     calls_in,
     dotted,
+    kwarg,
     names_in,
     norm,
     strip_await,
@@ -471,6 +472,7 @@ def r6_6(ctx):
     ctx.floor("R6.6", len(ranges), 1, "range() expansions in sequence_set_to_list")
     args = {a.arg for a in fi.node.args.args}
     ctx.require({"seq_max", "uid_cmd"} <= args, "sequence_set_to_list lost its seq_max/uid_cmd parameters")
+    pending = []
     for k_site, rc in enumerate(sorted(ranges, key=lambda c: (c.lineno, c.col_offset)), 1):
         # the size of range(a, b) is bounded when its *stop* argument is (the start is >= 0 by the < 1 guards / parser)
         stop = rc.args[1] if len(rc.args) >= 2 else rc.args[0]
@@ -485,15 +487,137 @@ def r6_6(ctx):
                 continue
             unbounded.append(v)
         if unbounded:
+            pending.append((k_site, rc, unbounded))
+        else:
+            ctx.ok("R6.6", where(fi), f"{norm(rc)} bounded by seq_max on all paths")
+    if not pending:
+        return
+    # The expansions are bounded only when uid_cmd is false.  Accepted discharge: every caller that may pass a true
+    # uid_cmd hands over a set whose ranges were cut down to the same maximum by the clip helper.
+    helper_ok, why = _clip_helper(ctx)
+    sites = []
+    for cf in p.functions.values():
+        if cf.module.startswith("test"):
+            continue
+        for c in calls_in(cf.node):
+            if call_name(c) == "sequence_set_to_list" and cf.key != fi.key:
+                sites.append((cf, c))
+    ctx.floor("R6.6", len(sites), 3, "call sites of sequence_set_to_list")
+    bad_sites = []
+    for cf, c in sites:
+        ctx.analysed(cf)
+        ctx.call_sites += 1
+        flag = c.args[2] if len(c.args) >= 3 else kwarg(c, "uid_cmd")
+        if flag is None or (isinstance(flag, ast.Constant) and flag.value is False):
+            ctx.ok("R6.6", where(cf), f"{norm(c, 70)}: uid_cmd is false, ranges beyond seq_max raise Bad", nontrivial=False)
+            continue
+        if not c.args or len(c.args) < 2:
+            bad_sites.append((cf, c, "positional set/max arguments missing"))
+            continue
+        how = _clipped_arg(cf, c, c.args[0], c.args[1], flag)
+        if how and helper_ok:
+            ctx.ok("R6.6", where(cf), f"{norm(c, 60)}: {how}")
+        else:
+            bad_sites.append((cf, c, how or "set not passed through clip_sequence_set with the same maximum"))
+    if helper_ok and not bad_sites:
+        for k_site, rc, unbounded in pending:
+            ctx.ok("R6.6", where(fi), f"{norm(rc)}: unbounded under uid_cmd, but every uid caller clips its set first ({why})")
+        return
+    if not helper_ok:
+        for k_site, rc, unbounded in pending:
             ctx.bad(
                 "R6.6", fi.module, fi.qual, f"range expansion #{k_site} of a client-supplied pair",
                 f"range expansion bounded only when uid_cmd is false: for UID commands {', '.join(unbounded)} come "
                 "straight from the client (e.g. `UID FETCH 1:4000000000`) and a list of that size is built "
-                "synchronously inside the management task",
+                f"synchronously inside the management task ({why})",
                 rc.lineno,
             )
-        else:
-            ctx.ok("R6.6", where(fi), f"{norm(rc)} bounded by seq_max on all paths")
+        return
+    for cf, c, msg in bad_sites:
+        ctx.bad(
+            "R6.6", cf.module, cf.qual, f"unclipped uid set -> {norm(c.func)}({norm(c.args[0], 40) if c.args else ''}, ...)",
+            "sequence_set_to_list expands every range of a set that may hold numbers far beyond the mailbox "
+            f"(`UID FETCH 1:4000000000`): {msg}",
+            c.lineno,
+        )
+
+
+def _clip_helper(ctx):
+    """clip_sequence_set: every tuple element leaves as (low, min(high, seq_max)) or is dropped; nothing is expanded."""
+    p = ctx.p
+    try:
+        h = p.func("utils.clip_sequence_set")
+    except Exception:  # noqa: BLE001
+        return False, "no clip helper in utils"
+    ctx.analysed(h)
+    args = [a.arg for a in h.node.args.args]
+    if len(args) < 2:
+        return False, "clip helper lost its maximum parameter"
+    mx = args[1]
+    if any(isinstance(c.func, ast.Name) and c.func.id in ("range", "list") for c in calls_in(h.node)):
+        return False, "clip helper expands ranges itself"
+    loops = [n for n in body_walk(h.node) if isinstance(n, ast.For)]
+    if len(loops) != 1 or not isinstance(loops[0].target, ast.Name):
+        return False, "clip helper: expected one loop over the set"
+    elt = loops[0].target.id
+    ok_tuple = False
+    for n in walk_no_nested(loops[0]):
+        if isinstance(n, ast.If) and isinstance(n.test, ast.Call) and call_name(n.test) == "isinstance" and norm(n.test.args[0]) == elt and "tuple" in norm(n.test.args[1]):
+            last = n.body[-1]
+            if isinstance(last, ast.Assign) and norm(last.targets[0]) == elt and isinstance(last.value, ast.Tuple) and len(last.value.elts) == 2:
+                hi = last.value.elts[1]
+                if isinstance(hi, ast.Call) and isinstance(hi.func, ast.Name) and hi.func.id == "min" and any(norm(a) == mx for a in hi.args):
+                    # no other way out of the tuple branch than `continue` (dropping the element)
+                    if not n.orelse and all(not isinstance(x, (ast.Break, ast.Return)) for x in walk_no_nested(n)):
+                        ok_tuple = True
+    if not ok_tuple:
+        return False, "clip helper does not rewrite every range as (low, min(high, max))"
+    # only `elt` (after the rewrite) is appended
+    apps = [c for c in calls_in(h.node) if call_name(c) in ("append", "add", "extend")]
+    if not apps or any(call_name(c) == "extend" or norm(c.args[0]) != elt for c in apps):
+        return False, "clip helper emits something other than the rewritten element"
+    # tuples must not be emitted before the rewrite: the append follows the tuple branch in the loop body
+    body = loops[0].body
+    for c in apps:
+        st = next((s_ for s_ in body if any(x is c for x in ast.walk(s_))), None)
+        tb = next((s_ for s_ in body if isinstance(s_, ast.If) and isinstance(s_.test, ast.Call) and call_name(s_.test) == "isinstance"), None)
+        if st is None or tb is None or body.index(st) < body.index(tb):
+            return False, "clip helper appends the element before bounding it"
+    return True, "utils.clip_sequence_set rewrites each range as (low, min(high, max)) or drops it"
+
+
+def _clipped_arg(cf, call, setarg, maxarg, flag) -> str | None:
+    """The set argument of a sequence_set_to_list call is clip_sequence_set(<x>, <same max>) - directly, or through a local
+    that is reassigned from such a call by an earlier sibling statement that runs whenever `flag` is true."""
+    def is_clip(e):
+        return isinstance(e, ast.Call) and call_name(e) == "clip_sequence_set" and len(e.args) >= 2 and norm(e.args[1]) == norm(maxarg)
+
+    if is_clip(setarg):
+        return "set clipped in place"
+    if not isinstance(setarg, ast.Name):
+        return None
+    par = parmap(cf)
+    cur = call
+    while cur in par:
+        pr = par[cur]
+        for fld in ("body", "orelse", "finalbody"):
+            lst = getattr(pr, fld, None)
+            if isinstance(lst, list) and cur in lst:
+                for s_ in reversed(lst[: lst.index(cur)]):
+                    # x = clip(...)  unconditionally
+                    if isinstance(s_, ast.Assign) and norm(s_.targets[0]) == setarg.id:
+                        return "set clipped by the preceding assignment" if is_clip(s_.value) else None
+                    if isinstance(s_, ast.If) and any(isinstance(x, ast.Assign) and norm(x.targets[0]) == setarg.id for x in walk_no_nested(s_)):
+                        if norm(s_.test) == norm(flag) and not s_.orelse and len(s_.body) >= 1:
+                            a = [x for x in s_.body if isinstance(x, ast.Assign) and norm(x.targets[0]) == setarg.id]
+                            if a and is_clip(a[-1].value):
+                                return f"set clipped under `if {norm(flag)}:` before the call"
+                        return None
+                    # the maximum must not be changed between clip and call
+                    if any(isinstance(x, (ast.Assign, ast.AugAssign)) and norm(maxarg) in [norm(t) for t in (x.targets if isinstance(x, ast.Assign) else [x.target])] for x in walk_no_nested(s_)):
+                        return None
+        cur = pr
+    return None
 
 
 def _clamped(fi, site, v, par):
